@@ -206,14 +206,26 @@ def build_harness(prop, cfg, log, race=False):
     except Exception:
         pass
     env = dict(GOENV)
-    cmd = ["go", "build", "-modfile", modf, "-tags", "verif", "-overlay", ov, "-o", binp]
-    if race:
-        cmd.insert(2, "-race")
-        env["CGO_ENABLED"] = "1"
-    cmd.append("./cmd/" + cxx)
-    with Lock("go-" + cxx):
-        rc, out, dt = sh(cmd, cwd=HARNESS, env=env, timeout=900)
+    # cfg["build_tags"]: extra tags of the full build; cfg["fallback_tags"] (optional): tags of a second attempt with
+    # the parts of the harness that only use stable API, when the full harness (overlay calling unexported code) does
+    # not compile against the tree under test.  A fallback build is recorded in cfg["_degraded_build"].
+    cfg.pop("_degraded_build", None)
+    def attempt(tags):
+        cmd = ["go", "build", "-modfile", modf, "-tags", ",".join(["verif"] + list(tags)), "-overlay", ov, "-o", binp]
+        if race:
+            cmd.insert(2, "-race")
+            env["CGO_ENABLED"] = "1"
+        cmd.append("./cmd/" + cxx)
+        with Lock("go-" + cxx):
+            return sh(cmd, cwd=HARNESS, env=env, timeout=900)
+    rc, out, dt = attempt(cfg.get("build_tags", []))
     log("go build %s rc=%d %.1fs" % (cxx, rc, dt))
+    if rc != 0 and cfg.get("fallback_tags") is not None:
+        rc2, out2, dt2 = attempt(cfg["fallback_tags"])
+        log("go build %s (fallback tags %s) rc=%d %.1fs" % (cxx, cfg["fallback_tags"], rc2, dt2))
+        if rc2 == 0:
+            cfg["_degraded_build"] = out
+            return 0, out, binp
     return rc, out, binp
 
 
@@ -474,6 +486,11 @@ def main():
         atexit.register(lambda: shutil.rmtree(outbase, ignore_errors=True))
     brc, bout, binp = build_harness(prop, cfg, log)
     hooks = cfg.get("custom")
+    if cfg.get("_degraded_build"):
+        corr_broken.append({"stream": "harness-build-pieces", "line": 0,
+                            "op": "go build -tags verif,%s ./cmd/%s" % (",".join(cfg.get("build_tags", [])), prop.lower()),
+                            "impl": "correspondence of the unexported pieces not checkable: overlay does not compile: "
+                                    + cfg["_degraded_build"][-1200:], "model": ""})
     if brc != 0:
         corr_broken.append({"stream": "harness-build", "line": 0, "op": "go build -tags verif ./cmd/" + prop.lower(),
                             "impl": bout[-1500:], "model": ""})
